@@ -311,6 +311,21 @@ def run_shard(mod, spec, ctx):
                                           'value %r built as an instance of a subclass of its type: %s: %s | text %r' % (
                                               n, sym, detail, (art.get('text') or '')[:200] if isinstance(art.get('text'), str) else art.get('text')),
                                           {'type': 'grid', 'n': D.enc(g), 'subclass': True})
+                    elif pos in ('cell', 'grid-meta', 'list-elem') and n[0] == 'num' and n[2] is None and not isinstance(n[1], bool):
+                        from vf import hs as _hs
+                        _hs.WRAP_NUM = True
+                        try:
+                            sym2, detail2, art2 = mod.judge_grid(g)
+                        finally:
+                            _hs.WRAP_NUM = False
+                        ctx.count('unit-less Quantity round trips')
+                        if sym2 or art2.get('text') != art.get('text'):
+                            ctx.violation({'part': 'position', 'format': mod.FMT, 'position': pos, 'kind': 'num',
+                                           'symptom': 'depends-on-how-the-grid-was-built:' + (sym2 or 'text-differs'),
+                                           'features': sorted(D.features(n) | {'build=unitless-quantity', 'ver=' + ver})},
+                                          'number %r given as hszinc.Quantity(v) (no unit): %s: %s | text %r, text of the bare number %r' % (
+                                              n[1], sym2, detail2, (art2.get('text') or '')[:200], (art.get('text') or '')[:200]),
+                                          {'type': 'grid', 'n': D.enc(g), 'build': 'unitless-quantity'})
                     elif not shown and pos == 'dict-value':
                         ctx.sample({'position': pos, 'value': D.enc(n), 'text': art.get('text')})
                         shown = True
@@ -351,6 +366,22 @@ def run_shard(mod, spec, ctx):
                 finally:
                     _hs.BUILD = None
                 ctx.count('grids also built by re-ordering their ordered maps')
+                if not sym2 and art2.get('text') == art['text'] and any(x[0] == 'num' and x[2] is None for _, x in D.walk(n, 'top')):
+                    # and with every unit-less number given as hszinc.Quantity(v): the same number, so the same text
+                    _hs.WRAP_NUM = True
+                    try:
+                        sym2, detail2, art2 = mod.judge_grid(n)
+                    finally:
+                        _hs.WRAP_NUM = False
+                    ctx.count('grids also built with unit-less Quantity objects for plain numbers')
+                    if sym2 or art2.get('text') != art['text']:
+                        ctx.violation({'part': 'grid', 'format': mod.FMT, 'position': 'document', 'kind': 'num',
+                                       'symptom': 'depends-on-how-the-grid-was-built:' + (sym2 or 'text-differs'), 'features': ['build=unitless-quantity']},
+                                      'grid whose plain numbers were given as hszinc.Quantity(v) (no unit): %s; text %r, text with bare numbers %r' % (
+                                          sym2 or 'another text', (art2.get('text') or '')[:200], art['text'][:200]),
+                                      {'type': 'grid', 'n': D.enc(n), 'build': 'unitless-quantity'})
+                        sym2 = None
+                        art2 = art
                 if sym2 or art2.get('text') != art['text']:
                     ctx.violation({'part': 'grid', 'format': mod.FMT, 'position': 'document', 'kind': 'grid',
                                    'symptom': 'depends-on-how-the-grid-was-built:' + (sym2 or 'text-differs'), 'features': ['build=reordered']},
@@ -478,14 +509,18 @@ def replay(mod, case, ctx):
         from vf import hs as _hs
         n = D.dec(case['n'])
         sym, detail, art = mod.judge_grid(n)
-        _hs.BUILD = case['build']
+        if case['build'] == 'unitless-quantity':
+            _hs.WRAP_NUM = True
+        else:
+            _hs.BUILD = case['build']
         try:
             sym2, detail2, art2 = mod.judge_grid(n)
         finally:
             _hs.BUILD = None
+            _hs.WRAP_NUM = False
         if sym2 or art2.get('text') != art.get('text'):
             ctx.violation({'part': 'grid', 'format': mod.FMT, 'position': 'document', 'kind': 'grid',
-                           'symptom': 'depends-on-how-the-grid-was-built:' + (sym2 or 'text-differs'), 'features': ['build=reordered']},
+                           'symptom': 'depends-on-how-the-grid-was-built:' + (sym2 or 'text-differs'), 'features': ['build=' + case['build']]},
                           '%s / %r vs %r' % (sym2, (art2.get('text') or '')[:200], (art.get('text') or '')[:200]), case)
     else:
         n = D.dec(case['n'])
